@@ -40,13 +40,124 @@ fn class(s: &[u8]) -> &'static str {
     }
 }
 
+/// `Send` source that hands out its data in the pieces of a schedule (`Message::from_bytes` needs `Send`)
+impl std::fmt::Debug for SendSrc {
+    fn fmt(&self, f: &mut std::fmt::Formatter<'_>) -> std::fmt::Result {
+        write!(f, "SendSrc")
+    }
+}
+
+struct SendSrc {
+    data: Vec<u8>,
+    pos: usize,
+    sizes: Vec<usize>,
+    k: usize,
+    cur: usize,
+}
+
+impl SendSrc {
+    fn new(data: Vec<u8>, sched: &Sched) -> Self {
+        use rand::SeedableRng;
+        let sizes: Vec<usize> = match sched {
+            Sched::All => vec![usize::MAX],
+            Sched::Fixed(n) => vec![(*n).max(1)],
+            Sched::Cycle(v) => v.iter().map(|x| (*x).max(1)).collect(),
+            Sched::SplitAt(v) => {
+                let mut out = vec![];
+                let mut last = 0;
+                for o in v {
+                    if *o > last {
+                        out.push(*o - last);
+                        last = *o;
+                    }
+                }
+                out.push(usize::MAX);
+                out
+            }
+            Sched::Random(seed, max) => {
+                let mut r = rand_chacha::ChaCha8Rng::seed_from_u64(*seed);
+                (0..4096).map(|_| r.gen_range(1..=(*max).max(1))).collect()
+            }
+        };
+        SendSrc { data, pos: 0, sizes, k: 0, cur: 0 }
+    }
+    fn window(&mut self) -> usize {
+        if self.cur == 0 {
+            self.cur = self.sizes[self.k.min(self.sizes.len() - 1) % self.sizes.len()];
+            self.k = (self.k + 1) % self.sizes.len().max(1);
+        }
+        self.cur.min(self.data.len() - self.pos)
+    }
+}
+
+impl std::io::Read for SendSrc {
+    fn read(&mut self, buf: &mut [u8]) -> std::io::Result<usize> {
+        let n = self.window().min(buf.len());
+        buf[..n].copy_from_slice(&self.data[self.pos..self.pos + n]);
+        std::io::BufRead::consume(self, n);
+        Ok(n)
+    }
+}
+
+impl std::io::BufRead for SendSrc {
+    fn fill_buf(&mut self) -> std::io::Result<&[u8]> {
+        let n = self.window();
+        Ok(&self.data[self.pos..self.pos + n])
+    }
+    fn consume(&mut self, amt: usize) {
+        self.pos += amt;
+        self.cur = if self.cur == usize::MAX { usize::MAX } else { self.cur.saturating_sub(amt) };
+        if self.cur == usize::MAX && self.sizes.len() > 1 {
+            // a "rest" piece stays open
+        }
+    }
+}
+
+/// Inline verification of a text-mode signature: the document travels in a binary literal packet behind a
+/// one-pass header (`[OPS][literal][signature]`) or behind the signature itself (`[signature][literal]`),
+/// is read to the end through `Message` and verified. Returns the digests the primitive saw.
+fn inline_verify<K: pgp::types::VerifyingKey>(
+    rs: &rfc::sig::RefSig,
+    sig_body: &[u8],
+    key_id: &[u8],
+    doc: &[u8],
+    one_pass: bool,
+    lit_form: &rfc::frame::LenForm,
+    sched: Sched,
+    ver: &RecVerifier<'_, K>,
+) -> Result<(), String> {
+    use rfc::frame::{frame, LenForm};
+    let mut lit = vec![b'b', 0, 0, 0, 0, 0];
+    lit.extend_from_slice(doc);
+    let sigp = frame(2, sig_body, &LenForm::NewMin).ok_or("frame sig")?;
+    let litp = frame(11, &lit, lit_form).ok_or("frame literal")?;
+    let mut msg = vec![];
+    if one_pass {
+        let ops = rfc::sig::RefOps { version: 3, typ: rs.typ, hash_alg: rs.hash_alg, pub_alg: rs.pub_alg, salt: vec![], issuer: key_id.to_vec(), last: 1 };
+        msg.extend(frame(4, &ops.encode(), &LenForm::NewMin).ok_or("frame ops")?);
+        msg.extend(litp);
+        msg.extend(sigp);
+    } else {
+        msg.extend(sigp);
+        msg.extend(litp);
+    }
+    let mut m = pgp::composed::Message::from_bytes(SendSrc::new(msg, &sched)).map_err(|e| format!("parse: {e}"))?;
+    let mut out = vec![];
+    std::io::Read::read_to_end(&mut m, &mut out).map_err(|e| format!("read: {e}"))?;
+    if out != doc {
+        return Err("released data differs from the document".into());
+    }
+    m.verify(ver).map(|_| ()).map_err(|e| format!("verify: {e}"))
+}
+
 pub fn run(ctx: &mut Ctx) {
     ctx.exhaustive = true;
-    let maxlen = ctx.qt(7usize, 9usize);
+    let maxlen = ctx.qt(7usize, 10usize);
     let key = zoo::key(&zoo::Spec::simple(false, zoo::Alg::Ed25519Legacy, None), 0);
     let pubkey = key.to_public_key();
     let signer = RecSigner::dry(&key.primary_key);
     let ts = Timestamp::from_secs(1_700_000_000);
+    let key_id: Vec<u8> = key.primary_key.legacy_key_id().as_ref().to_vec();
 
     let mk_config = || {
         let mut c = SignatureConfig::v4(
@@ -77,6 +188,7 @@ pub fn run(ctx: &mut Ctx) {
             let canon = rfc::canon_text(&s);
             ctx.cover(&("A", &s));
             let mut ref_digest: Option<Vec<u8>> = None;
+            let mut inline_ref: Option<(rfc::sig::RefSig, Vec<u8>, Vec<u8>)> = None;
             for mask in 0..ncomp {
                 let splits = composition_splits(len, mask);
                 // (a) hasher as io::Write
@@ -148,12 +260,44 @@ pub fn run(ctx: &mut Ctx) {
                     );
                 }
 
+                // (a2) the same write schedule with zero-length writes in front of, between and behind the
+                // pieces (an `io::Write` caller may legally pass an empty buffer at any time)
+                if len <= 7 || mask % 4 == si % 4 {
+                    let r = ctx.guarded("C14/hasher-empty-writes", || json!({"s": hexs(&s), "mask": mask}), || {
+                        let mut h = mk_config().into_hasher().expect("hasher");
+                        let _ = h.write(&[]).unwrap();
+                        for c in chunks_by_splits(&s, &splits) {
+                            h.write_all(c).unwrap();
+                            let _ = h.write(&[]).unwrap();
+                        }
+                        h.sign(&signer, &Password::empty())
+                    });
+                    ctx.eval();
+                    let seen2 = signer.take();
+                    match r {
+                        Some(Ok(_)) => {
+                            if seen2.len() != 1 || seen2[0].digest != want {
+                                ctx.violation(
+                                    format!("C14/hasher/digest-mismatch/empty-writes/{}", class(&s)),
+                                    format!("SignatureHasher digest changes when zero-length writes are interleaved; s={:?} chunks={:?}", String::from_utf8_lossy(&s), splits),
+                                    json!({"s": hexs(&s), "mask": mask, "empty_writes": true}),
+                                );
+                            }
+                        }
+                        Some(Err(e)) => ctx.violation("C14/hasher/sign-error/empty-writes", format!("sign failed: {e}"), json!({"s": hexs(&s), "mask": mask})),
+                        None => {}
+                    }
+                }
+
                 // (b) verify side: Signature::verify with source schedule = this composition.
                 // A reference-made signature (packet from the library but with left16 set from the
                 // reference digest) must reach the primitive with the reference digest.
                 let mut rs2 = rs.clone();
                 rs2.left16 = [want[0], want[1]];
                 let body2 = rs2.encode();
+                if inline_ref.is_none() && mask == 0 {
+                    inline_ref = Some((rs2.clone(), body2.clone(), want.clone()));
+                }
                 let sig2 = pgp::packet::Signature::try_from_reader(
                     pgp::packet::PacketHeader::new_fixed(pgp::types::Tag::Signature, body2.len() as u32),
                     &body2[..],
@@ -196,6 +340,38 @@ pub fn run(ctx: &mut Ctx) {
                     }
                 }
             }
+            // (b2) inline verification (one-pass and prefix form) of the reference-corrected signature of
+            // this string: the signed-message reader is a third place that canonicalises while hashing
+            if let Some((rs2, body2, want)) = inline_ref.take() {
+                for one_pass in [true, false] {
+                    for (sn, sched) in [("all", Sched::All), ("1", Sched::Fixed(1)), ("3", Sched::Fixed(3))] {
+                        let ver = RecVerifier { inner: &pubkey.primary_key, seen: Default::default(), accept_all: true };
+                        let r = ctx.guarded("C14/inline", || json!({"s": hexs(&s), "one_pass": one_pass, "sched": sn}), || {
+                            inline_verify(&rs2, &body2, &key_id, &s, one_pass, &rfc::frame::LenForm::NewMin, sched.clone(), &ver)
+                        });
+                        ctx.eval();
+                        let Some(r) = r else { continue };
+                        let seenv = ver.take();
+                        let form = if one_pass { "one-pass" } else { "prefix" };
+                        match r {
+                            Ok(()) => {
+                                if seenv.len() != 1 || seenv[0].digest != want {
+                                    ctx.violation(
+                                        format!("C14/inline/{form}/digest-mismatch/{}", class(&s)),
+                                        format!("Message::verify hashed a different canonical text for s={:?} (source {sn})", String::from_utf8_lossy(&s)),
+                                        json!({"s": hexs(&s), "one_pass": one_pass, "sched": sn}),
+                                    );
+                                }
+                            }
+                            Err(e) => ctx.violation(
+                                format!("C14/inline/{form}/rejects-rfc-digest/{}", class(&s)),
+                                format!("inline verification rejected a text signature whose left16 is the RFC digest prefix: {e}; s={:?} (source {sn})", String::from_utf8_lossy(&s)),
+                                json!({"s": hexs(&s), "one_pass": one_pass, "sched": sn}),
+                            ),
+                        }
+                    }
+                }
+            }
             // (c) in-memory normalisation
             if let Ok(st) = std::str::from_utf8(&s) {
                 if let Some(Ok(l)) = ctx.guarded("C14/from_str", || json!({"s": hexs(&s)}), || LiteralData::from_str("", st)) {
@@ -218,7 +394,7 @@ pub fn run(ctx: &mut Ctx) {
     // ----------------------------------------------------------------------------------
     // Family B: NormalizedReader (public type) with the pattern placed across its internal 512
     // byte window edge, every alignment, several source schedules and consumer patterns.
-    let blen = ctx.qt(6usize, 8usize);
+    let blen = ctx.qt(6usize, 9usize);
     let consumers = [Consume::ToEnd, Consume::Read(1), Consume::Read(7), Consume::Read(600)];
     for len in 1..=blen {
         let nstr = 3u64.pow(len as u32);
@@ -291,7 +467,7 @@ pub fn run(ctx: &mut Ctx) {
     // Family C: Utf8 literal acceptance = (valid UTF-8 and every LF preceded by CR), under all
     // chunkings of the source.
     let alpha_c: [u8; 6] = [b'\r', b'\n', b'a', 0xC3, 0xA9, 0xE2];
-    let clen = ctx.qt(5usize, 7usize);
+    let clen = ctx.qt(5usize, 8usize);
     for len in 0..=clen {
         let nstr = (alpha_c.len() as u64).pow(len as u32);
         for si in 0..nstr {
@@ -333,7 +509,7 @@ pub fn run(ctx: &mut Ctx) {
     // ----------------------------------------------------------------------------------
     // Family D: long random texts with CR/LF at the 512 / 8192 edges, random schedules; digest
     // through hasher (random write sizes), verify (reader), and LF<->CRLF invariance.
-    let nrand = ctx.qt(300u64, 4000u64);
+    let nrand = ctx.qt(300u64, 40000u64);
     ctx.exhaustive = true; // families A-C enumerated completely; D is sampled on top
     for i in 0..nrand {
         if !ctx.mine() {
@@ -467,6 +643,46 @@ pub fn run(ctx: &mut Ctx) {
                     "text signature digest unchanged after a content change",
                     json!({"family": "D", "i": i, "pos": pos, "s": hexs(&s)}),
                 );
+            }
+        }
+        // inline verification of the same signature: the document in a literal packet (fixed length, and in
+        // partial chunks so that the reader's 8 KiB pieces start at shifted offsets), one-pass and prefix form
+        for (vn, doc, must_ok) in [("orig", &s, true), ("crlf", &crlf, true), ("lf", &lf_only, lf_same)] {
+            if vn != "orig" && i % 3 != 0 {
+                continue;
+            }
+            for one_pass in [true, false] {
+                let lit_form = match (i / 2) % 3 {
+                    0 => rfc::frame::LenForm::NewMin,
+                    1 => rfc::frame::LenForm::Partial(vec![512], Box::new(rfc::frame::LenForm::NewMin)),
+                    _ => rfc::frame::LenForm::Partial(vec![8192, 512], Box::new(rfc::frame::LenForm::NewMin)),
+                };
+                // the chunk sizes must fit the literal body (6 header octets + document)
+                let need: usize = match &lit_form {
+                    rfc::frame::LenForm::Partial(c, _) => c.iter().map(|x| *x as usize).sum(),
+                    _ => 0,
+                };
+                let lit_form = if doc.len() + 6 > need { lit_form } else { rfc::frame::LenForm::NewMin };
+                let ver = RecVerifier { inner: &pubkey.primary_key, seen: Default::default(), accept_all: true };
+                let r = ctx.guarded("C14/inline", || json!({"family": "D", "i": i, "variant": vn, "one_pass": one_pass}), || {
+                    inline_verify(&rs, &body, &key_id, doc, one_pass, &lit_form, sched.clone(), &ver)
+                });
+                ctx.eval();
+                let Some(r) = r else { continue };
+                let seenv = ver.take();
+                let same = r.is_ok() && seenv.len() == 1 && seenv[0].digest == want;
+                let form = if one_pass { "one-pass" } else { "prefix" };
+                ctx.seen("D.inline", format!("{form}/{vn}/{}", if matches!(lit_form, rfc::frame::LenForm::NewMin) { "fixed" } else { "partial" }));
+                if must_ok && !same {
+                    ctx.violation(
+                        format!("C14/inline/{form}/variant-{vn}-rejected"),
+                        format!("inline text signature over a {}-octet text not verified under {vn} delivery (sched {}, result {:?})", doc.len(), sched.name(), r.err()),
+                        json!({"family": "D", "i": i, "variant": vn, "one_pass": one_pass, "s": hexs(&s)}),
+                    );
+                }
+                if !must_ok && same {
+                    ctx.violation(format!("C14/inline/{form}/different-text-accepted"), "inline text signature digest unchanged for a different text", json!({"family": "D", "i": i, "variant": vn, "s": hexs(&s)}));
+                }
             }
         }
         if i < 2 {
